@@ -288,9 +288,15 @@ _EXT_MODULES = {"re": re, "string": string,
                 "bisect": _types.SimpleNamespace(**{n: getattr(__import__("bisect"), n) for n in (
                     "bisect", "bisect_left", "bisect_right", "insort", "insort_left", "insort_right")}),
                 "collections": _types.SimpleNamespace(deque=_collections_mod.deque, OrderedDict=dict, namedtuple=_collections_mod.namedtuple),
+                "collections.abc": _types.SimpleNamespace(**{n: getattr(__import__("collections.abc").abc, n) for n in (
+                    "Iterable", "Iterator", "Sequence", "Mapping", "Set", "Collection", "Container", "Sized", "Hashable", "Callable",
+                    "Generator", "Reversible", "MutableSequence", "MutableMapping", "MutableSet")}),
                 "types": _types.SimpleNamespace(MappingProxyType=lambda d: d, SimpleNamespace=_types.SimpleNamespace),
                 "dataclasses": _types.SimpleNamespace(dataclass="<dataclass>", field="<field>"),
                 "io": _types.SimpleNamespace(DEFAULT_BUFFER_SIZE=_io_mod.DEFAULT_BUFFER_SIZE, SEEK_SET=0, SEEK_CUR=1, SEEK_END=2)}
+
+
+_EXT_MODULES["collections"].abc = _EXT_MODULES["collections.abc"]
 
 
 class Interp:
@@ -305,8 +311,10 @@ class Interp:
         self.trace: list[tuple[int, int, str]] = []   # (chosen, n, tag)
         self.fuel = fuel
         self._class_attr_cache = {}
-        self._nt_types = {}       # ClassInfo of a typing.NamedTuple class -> generated namedtuple type
-        self._nt_by_type = {}
+        # ClassInfo of a typing.NamedTuple class -> generated namedtuple type; shared by all interpreters of one model, so
+        # that a record built by one (an operand prepared by a rule) is understood by another
+        self._nt_types = model.__dict__.setdefault("_nt_types", {})
+        self._nt_by_type = model.__dict__.setdefault("_nt_by_type", {})
         self.events: list = []
         self.stack: list[Frame] = []
 
@@ -320,6 +328,14 @@ class Interp:
         return pick
 
     def force(self, v):
+        return v
+
+    def settle(self, v):
+        """An unresolved value whose resolution is remembered by the value itself (`sticky`: the linked halves of an
+        unknown classification) is resolved - forking the exploration - at the point where its VALUE is needed."""
+        if isinstance(v, Lazy) and getattr(v, "sticky", False):
+            opts = v.options
+            return opts[self.choose(len(opts), v.tag) if len(opts) > 1 else 0]
         return v
 
     # ------------------------------------------------------------ public API
@@ -434,7 +450,7 @@ class Interp:
             ci = v.ci
             if name == "__name__":
                 return ci.name
-            if any("Enum" in b for b in ci.external_bases()):
+            if any("Enum" in b or b.split(".")[-1] in ("Flag", "IntFlag") for b in ci.external_bases()):
                 c, expr = ci.find_attr(name)
                 if c is not None:
                     return EnumVal(ci, name, self._class_attr(c, name))
@@ -494,9 +510,15 @@ class Interp:
             if name == "_replace":
                 return NativeMethod(lambda it, a, kw: v._replace(**kw))
         if isinstance(v, (Closure, FuncRef)):
+            if name in ("cache_clear",):        # functools cache wrapper API: the interpreter never caches, so clearing is a no-op
+                return NativeMethod(lambda it, a, kw: None)
+            if name == "__wrapped__":
+                return v
+            if name in ("__name__", "__qualname__") and isinstance(v, FuncRef):
+                return v.func.node.name if name == "__name__" else v.func.qualname
             raise Incomplete(f"attribute {name} of function not modelled")
         try:
-            return getattr(v, name)
+            return getattr(v, name)      # (a linked unresolved value stays unresolved until its value is needed)
         except AttributeError:
             raise PyRaise(AttributeError, (f"{type(v).__name__}.{name}",), node)
 
@@ -577,6 +599,7 @@ class Interp:
         raise Incomplete(f"operator.{n} not modelled")
 
     def subscript(self, v, k, node=None):
+        v, k = self.settle(v), self.settle(k)
         if isinstance(v, (Obj, ClassRef, Closure, FuncRef)):
             raise PyRaise(TypeError, ("object is not subscriptable",), node)
         if isinstance(v, Native):
@@ -590,11 +613,15 @@ class Interp:
             raise PyRaise(type(ex), ex.args, node)
 
     def _call_python(self, f, args, kwargs, node):
+        args = [self.settle(a) for a in args]
+        kwargs = {k: self.settle(v) for k, v in kwargs.items()}
         r = self.hooks.intercept_py(self, f, args, kwargs, node)
         if r is not NotImplemented:
             return r
         if f is bool and len(args) == 1 and not kwargs:
             return self.truth(args[0], node)
+        if f is set and not kwargs and len(args) <= 1:
+            return _OrderedSet(self.iterate(args[0], node)) if args else _OrderedSet()
         if f is _functools_mod.reduce and not kwargs and len(args) in (2, 3):
             it = iter(self.iterate(args[1], node))
             if len(args) == 3:
@@ -708,6 +735,7 @@ class Interp:
     def isinstance(self, v, t):
         if isinstance(t, tuple):
             return any(self.isinstance(v, x) for x in t)
+        v = self.settle(v)
         if isinstance(v, Lazy):
             raise Incomplete("isinstance on unresolved value")
         if isinstance(t, ClassRef):
@@ -780,7 +808,13 @@ class Interp:
             raise Incomplete("repr() of native object")
         return repr(v)
 
+    def _is_flag(self, ev):
+        return any(b.split(".")[-1] in ("Flag", "IntFlag") for c in ev.ci.mro() for b in c.external_bases())
+
     def truth(self, v, node=None):
+        v = self.settle(v)
+        if isinstance(v, EnumVal) and self._is_flag(v):
+            return bool(v.value)
         if isinstance(v, (Obj, ClassRef, Closure, FuncRef, EnumVal)):
             return True
         if isinstance(v, Native):
@@ -890,7 +924,7 @@ class Interp:
         if r is not NotImplemented:
             return r
         ext = ci.external_bases()
-        if any("Enum" in b for b in ext):
+        if any("Enum" in b or b.split(".")[-1] in ("Flag", "IntFlag") for b in ext):
             if len(args) == 1 and not kwargs:      # Kind(value): the member with that value
                 for nm in ci.attrs:
                     if self._equal(self._class_attr(ci, nm), args[0]):
@@ -1417,8 +1451,8 @@ class Interp:
                     d[self.eval(k, env, frame)] = self.eval(v, env, frame)
             return d
         if t is ast.Subscript:
-            v = self.eval(e.value, env, frame)
-            k = self.eval_slice(e.slice, env, frame)
+            v = self.settle(self.eval(e.value, env, frame))
+            k = self.settle(self.eval_slice(e.slice, env, frame))
             if isinstance(v, (Obj, ClassRef, Closure, FuncRef)) :
                 raise PyRaise(TypeError, ("object is not subscriptable",), e)
             if isinstance(v, Native):
@@ -1503,6 +1537,16 @@ class Interp:
         if ent is None:
             raise Incomplete(f"operator {type(op).__name__}")
         fwd, rev, pyfn = ent
+        l, r = self.settle(l), self.settle(r)
+        if isinstance(l, EnumVal) and isinstance(r, EnumVal) and l.ci is r.ci and self._is_flag(l) and \
+                type(op) in (ast.BitOr, ast.BitAnd, ast.BitXor) and isinstance(l.value, int) and isinstance(r.value, int):
+            v = {ast.BitOr: l.value | r.value, ast.BitAnd: l.value & r.value, ast.BitXor: l.value ^ r.value}[type(op)]
+            for nm in l.ci.attrs:
+                if not nm.startswith("_") and self._equal(self._class_attr(l.ci, nm), v):
+                    return EnumVal(l.ci, nm, v)
+            names = [nm for nm in l.ci.attrs if not nm.startswith("_") and isinstance(self._class_attr(l.ci, nm), int)
+                     and self._class_attr(l.ci, nm) and (self._class_attr(l.ci, nm) & v) == self._class_attr(l.ci, nm)]
+            return EnumVal(l.ci, "|".join(names) or "0", v)
         if isinstance(l, Native):
             out = l.sa_binop(self, fwd, r, False)
             if out is not NotImplemented:
@@ -1524,20 +1568,23 @@ class Interp:
         if isinstance(l, Lazy) or isinstance(r, Lazy):
             raise Incomplete("arithmetic on unresolved value")
         try:
-            if isinstance(l, _OrderedSet) or isinstance(r, _OrderedSet):
-                return _OrderedSet(pyfn(_plain(l), _plain(r))) if isinstance(pyfn(_plain(l), _plain(r)), (set, frozenset)) else pyfn(_plain(l), _plain(r))
-            return pyfn(l, r)
+            return pyfn(l, r)          # (set algebra on interpreter-made sets keeps insertion order: _OrderedSet's own operators)
         except _PY_EXC as ex:
             raise PyRaise(type(ex), ex.args, node)
 
     def compare(self, op, l, r, node):
         t = type(op)
+        l, r = self.settle(l), self.settle(r)
         if isinstance(l, Lazy) or isinstance(r, Lazy):
             raise Incomplete("comparison of unresolved value")
         if t is ast.Is:
             return self._identical(l, r)
         if t is ast.IsNot:
             return not self._identical(l, r)
+        if t in (ast.In, ast.NotIn) and isinstance(r, EnumVal) and isinstance(l, EnumVal) and self._is_flag(r) and l.ci is r.ci \
+                and isinstance(l.value, int) and isinstance(r.value, int):
+            res = (l.value & r.value) == l.value
+            return res if t is ast.In else not res
         if t in (ast.In, ast.NotIn):
             if isinstance(r, (Obj, ClassRef)):
                 raise PyRaise(TypeError, ("argument is not iterable",), node)
@@ -1610,14 +1657,16 @@ SET_ORDER = 0
 
 
 class _OrderedSet(set):
-    """A set display evaluated by the interpreter: iteration follows source order
-    (any order is possible at run time; rules that depend on order check commutation)."""
+    """A set created by interpreted code (display, comprehension, set(...) call, set algebra): iteration follows
+    the ORDER OF INSERTION permuted by the current SET_ORDER mode (any order is possible at run time - the modes
+    stand for hash seeds; rules that depend on order check commutation).  Every mutator and operator keeps the
+    insertion order in step with the contents, so results never depend on the hash seed of the checker itself."""
 
     def __init__(self, items=()):
         super().__init__()
         self._order = []
         for x in items:
-            if x not in self:
+            if not set.__contains__(self, x):
                 set.add(self, x)
                 self._order.append(x)
 
@@ -1637,19 +1686,79 @@ class _OrderedSet(set):
         except TypeError:
             return iter(list(self._order))
 
+    def _set_order(self, order):
+        set.clear(self)
+        self._order = []
+        for x in order:
+            if not set.__contains__(self, x):
+                set.add(self, x)
+                self._order.append(x)
+
+    # mutators
     def add(self, x):
-        if x not in self:
+        if not set.__contains__(self, x):
             set.add(self, x)
             self._order.append(x)
 
     def discard(self, x):
-        if x in self:
+        if set.__contains__(self, x):
             set.discard(self, x)
             self._order.remove(x)
 
     def remove(self, x):
         set.remove(self, x)
         self._order.remove(x)
+
+    def pop(self):
+        if not self._order:
+            raise KeyError("pop from an empty set")
+        x = next(iter(self))
+        self.remove(x)
+        return x
+
+    def clear(self):
+        set.clear(self)
+        self._order = []
+
+    def update(self, *others):
+        for o in others:
+            for x in o:
+                self.add(x)
+
+    def difference_update(self, *others):
+        drop = set()
+        for o in others:
+            drop |= set(o)
+        self._set_order([x for x in self._order if x not in drop])
+
+    def intersection_update(self, *others):
+        keep = None
+        for o in others:
+            keep = set(o) if keep is None else keep & set(o)
+        self._set_order([x for x in self._order if keep is None or x in keep])
+
+    def symmetric_difference_update(self, other):
+        self._set_order(list(self.symmetric_difference(other)._order))
+
+    def __ior__(self, o):
+        self.update(o)
+        return self
+
+    def __isub__(self, o):
+        self.difference_update(o)
+        return self
+
+    def __iand__(self, o):
+        self.intersection_update(o)
+        return self
+
+    def __ixor__(self, o):
+        self.symmetric_difference_update(o)
+        return self
+
+    # algebra (new sets)
+    def copy(self):
+        return _OrderedSet(self._order)
 
     def union(self, *others):
         out = _OrderedSet(self._order)
@@ -1664,11 +1773,44 @@ class _OrderedSet(set):
             drop |= set(o)
         return _OrderedSet(x for x in self._order if x not in drop)
 
+    def intersection(self, *others):
+        out = list(self._order)
+        for o in others:
+            k = set(o)
+            out = [x for x in out if x in k]
+        return _OrderedSet(out)
+
+    def symmetric_difference(self, other):
+        k = set(other)
+        mine = set(self._order)
+        return _OrderedSet([x for x in self._order if x not in k] + [x for x in other if x not in mine])
+
     def __or__(self, o):
-        return self.union(o)
+        return self.union(o) if isinstance(o, (set, frozenset)) else NotImplemented
+
+    def __ror__(self, o):
+        return _OrderedSet(o).union(self) if isinstance(o, (set, frozenset)) else NotImplemented
 
     def __sub__(self, o):
-        return self.difference(o)
+        return self.difference(o) if isinstance(o, (set, frozenset)) else NotImplemented
+
+    def __rsub__(self, o):
+        return _OrderedSet(o).difference(self) if isinstance(o, (set, frozenset)) else NotImplemented
+
+    def __and__(self, o):
+        return self.intersection(o) if isinstance(o, (set, frozenset)) else NotImplemented
+
+    def __rand__(self, o):
+        return _OrderedSet(o).intersection(self) if isinstance(o, (set, frozenset)) else NotImplemented
+
+    def __xor__(self, o):
+        return self.symmetric_difference(o) if isinstance(o, (set, frozenset)) else NotImplemented
+
+    def __rxor__(self, o):
+        return _OrderedSet(o).symmetric_difference(self) if isinstance(o, (set, frozenset)) else NotImplemented
+
+    def __reduce__(self):
+        return (_OrderedSet, (list(self._order),))
 
 
 _GEN_CACHE = {}
